@@ -132,3 +132,42 @@ Proof. intros call m n b Hn. rewrite run_stmt_rep. apply Z.ltb_lt in Hn. now rew
 (* a Nasu pass keeps feed and shutter, and with a zero shift it is the nominal path *)
 Lemma shift_pt_keeps : forall k sh p, pf (shift_pt k sh p) = pf p /\ ps (shift_pt k sh p) = ps p.
 Proof. intros k [[dx dy] dz] p. split; reflexivity. Qed.
+
+(* ---- the writers' sessions are sessions of public operations (Pgm/SafeProofs.pub): C03's theorem applies ---- *)
+From Femto Require Import Pgm.SafeProofs.
+
+Lemma pubs_app : forall a b, pubs (a ++ b) = pubs a && pubs b.
+Proof. induction a as [|x r IH]; intros b; cbn [app pubs]; [reflexivity|]. now rewrite IH, andb_assoc. Qed.
+
+Lemma pubs_writes : forall g, Forall (fun w => closed_path (w_pts w) = true) g -> pubs (map (fun w => OWrite (w_pts w)) g) = true.
+Proof. induction 1 as [|w r Hw _ IH]; [reflexivity|]. cbn [map pubs pub]. now rewrite Hw, IH. Qed.
+
+Lemma wg_ops_pub : forall groups, Forall (Forall (fun w => closed_path (w_pts w) = true)) groups -> pubs (wg_ops groups) = true.
+Proof.
+  intros groups H. unfold wg_ops. rewrite pubs_app. cbn [pubs pub]. rewrite andb_true_r.
+  induction H as [|g r Hg _ IH]; [reflexivity|]. cbn [map pubs]. rewrite IH, andb_true_r. unfold group_op.
+  rewrite pub_repeat. now apply pubs_writes.
+Qed.
+
+Lemma mk_ops_pub : forall ms, Forall (fun w => closed_path (w_pts w) = true) ms -> pubs (mk_ops ms) = true.
+Proof.
+  intros ms H. unfold mk_ops. rewrite pubs_app. cbn [pubs pub]. rewrite andb_true_r.
+  induction H as [|m r Hm _ IH]; [reflexivity|]. cbn [map pubs]. rewrite IH, andb_true_r.
+  rewrite pub_repeat. cbn [pubs pub]. now rewrite Hm.
+Qed.
+
+Lemma closed_path_shift : forall k sh pts, closed_path (map (shift_pt k sh) pts) = closed_path pts.
+Proof.
+  intros k sh pts. unfold closed_path. rewrite map_map.
+  assert (E : forall p, ps (shift_pt k sh p) = ps p) by (intros p; unfold shift_pt; destruct sh as [[dx dy] dz]; reflexivity).
+  f_equal.
+  - induction pts as [|p r IH]; [reflexivity|]. cbn [map forallb]. now rewrite E, IH.
+  - f_equal. f_equal. apply map_ext. exact E.
+Qed.
+
+Lemma nasu_ops_pub : forall ns, Forall (fun n => closed_path (n_pts n) = true) ns -> pubs (nasu_ops ns) = true.
+Proof.
+  intros ns H. unfold nasu_ops. rewrite pubs_app. cbn [pubs pub]. rewrite andb_true_r.
+  induction H as [|n r Hn _ IH]; [reflexivity|]. cbn [flat_map]. rewrite pubs_app, IH, andb_true_r.
+  induction (nasu_order (n_adj n)) as [|k ks IHk]; [reflexivity|]. cbn [map pubs pub]. now rewrite closed_path_shift, Hn, IHk.
+Qed.
